@@ -30,6 +30,16 @@ def decide(prop: str, tier: str, seed: int) -> int:
     broken = []          # obligations / streams that no longer check
     level = getattr(mod, 'LEVEL', 'proof')
 
+    # 0. source fingerprint of the files the property is anchored in: when it differs from the one
+    #    recorded at the last green state (fingerprints.json, committed), the correspondence and the
+    #    oracle run at the thorough depth even in the quick tier
+    fp = core.property_fingerprint(prop)
+    recorded = core.recorded_fingerprints().get(prop)
+    ctx.escalate = (recorded is not None and recorded != fp)
+    if ctx.escalate:
+        ctx.notes.append(f'anchored sources changed since the recorded green state ({recorded} -> {fp}): '
+                         'escalated to the thorough input set')
+
     # 1. regenerate source-derived tables
     regen_info = {}
     if hasattr(mod, 'regen'):
@@ -111,7 +121,7 @@ def decide(prop: str, tier: str, seed: int) -> int:
     failures = []
     oracle_info = {}
     try:
-        res = mod.oracle(ctx, deep=bool(broken) or tier == 'thorough', broken=broken)
+        res = mod.oracle(ctx, deep=bool(broken) or tier == 'thorough' or ctx.escalate, broken=broken)
         failures, oracle_info = res if isinstance(res, tuple) else (res, {})
     except ToolFailure:
         raise
@@ -183,6 +193,8 @@ def decide(prop: str, tier: str, seed: int) -> int:
         'oracle': oracle_info,
         'broken': broken,
         'regen': regen_info,
+        'source_fingerprint': fp,
+        'escalated': ctx.escalate,
         'notes': ctx.notes,
         'explanation': getattr(mod, 'EXPLANATION', ''),
         'exhaustive': False,
